@@ -89,7 +89,7 @@ class Cache:
             return creation_function()
 
         return self.impl.get_or_create(
-            key, creation_function, **self._get_cache_kw(kw, context)
+            key, creation_function, **self._get_cache_kw(kw, context, True)
         )
 
     def set(self, key, value, **kw):
@@ -162,17 +162,17 @@ class Cache:
 
         self.invalidate(name, __M_defname=name)
 
-    def _get_cache_kw(self, kw, context):
+    def _get_cache_kw(self, kw, context, rendering=False):
         defname = kw.pop("__M_defname", None)
-        if not defname:
-            tmpl_kw = self.template.cache_args.copy()
-            tmpl_kw.update(kw)
-        elif defname in self._def_regions:
+        if defname and not rendering and defname in self._def_regions:
+            # invalidate_body() and the like, which bring no arguments:
+            # those the section was last rendered with
             tmpl_kw = self._def_regions[defname]
         else:
             tmpl_kw = self.template.cache_args.copy()
             tmpl_kw.update(kw)
-            self._def_regions[defname] = tmpl_kw
+            if defname and rendering:
+                self._def_regions[defname] = tmpl_kw
         if context and self.impl.pass_context:
             tmpl_kw = tmpl_kw.copy()
             tmpl_kw.setdefault("context", context)
